@@ -87,6 +87,12 @@ def apply_action(w, st, a):
         if sid is None:
             return False
         peer.post(w, sid, '4ok-before\x1e4"\\ud83d"')
+        return True
+    if a == 'post_surrogate_json':
+        # the same character inside a JSON object: the relayed dict is serialised with escapes and has a UTF-8 form
+        if sid is None:
+            return False
+        peer.post(w, sid, '4ok-before\x1e4{"u":"\\ud83d"}')
         return True          # marker: the world was built with the farewell application
     if a.startswith('~'):
         # something that ends the session is under way and its disconnect handler is asleep when the probe arrives
@@ -217,6 +223,9 @@ def probes():
         ('poll_gzip_case', 'GET', q + '&sid=$', {'headers': {'Accept-Encoding': 'GZIP, deflate'}}),
         ('get_unknown_deflate_case', 'GET', q + '&sid=nosuchsid-nosuchsid', {'headers': {'Accept-Encoding': 'br, Deflate;q=0.8, *;q=0'}}),
         ('open_gzip_q', 'GET', q, {'headers': {'Accept-Encoding': 'identity;q=0.1, gzip ; q=0.5'}}),
+        # a request without a Host header that carries forwarding headers (a proxy speaking HTTP/1.0 to the application server)
+        ('poll_no_host_fwd', 'GET', q + '&sid=$', {'host': None, 'headers': {'X-Forwarded-Proto': 'https', 'Origin': 'https://pub.example'}}),
+        ('open_no_host_fwd', 'GET', q, {'host': None, 'headers': {'X-Forwarded-Host': 'pub.example'}}),
         ('post_bad_gzip', 'POST', q + '&sid=$', {'body': b'7', 'headers': {'Accept-Encoding': 'gzip'}}),
         ('open_ws_upgrade_only', 'GET', 'EIO=4&transport=websocket', {'headers': {'Upgrade': 'websocket'}}),
         ('open_ws_nohdr', 'GET', 'EIO=4&transport=websocket', {}),
@@ -261,6 +270,7 @@ def probes():
         ('disconnect_all', 'disconnect', ()),
     ]:
         P.append(('call', name, fn, args, None))
+    P.append(('call', 'send_flood', 'send', ('$', 'x'), None))       # last: only used by the flood pass
     return P
 
 
@@ -293,7 +303,11 @@ def run_probe(impl, hist, probe, out):
             targets = [sid] if args and args[0] == '$' else (list(w.live_sids()) if not args else [])
             rs = [reader_of(x) for x in targets]
             reader = ([k for k in ('none', 'poll_pending', 'websocket', 'dead') if k in rs] or ['no_session'])[0]
-            h = w.call(fn, *[sid if a == '$' else a for a in args])
+            if name == 'send_flood':
+                # 1100 messages queued back to back for a session whose client may be slow or gone
+                h = w.call_seq('send', [(sid, 'flood-%d' % i) for i in range(1100)])
+            else:
+                h = w.call(fn, *[sid if a == '$' else a for a in args])
         w.run()
         w.run_until(w.now + HORIZON)
         case = {'history': list(hist), 'probe': name}
@@ -323,7 +337,8 @@ def run_probe(impl, hist, probe, out):
                   site[-1] if site else 'unknown')
             elif r.exc:
                 V('exception_escaped', trig, '%s raised %s: %s at %s' % (r.method, r.exc['type'], r.exc['text'], r.exc['site']),
-                  (r.exc['site'] or ['unknown'])[-1], exc=r.exc['type'])
+                  (r.exc['site'] or ['unknown'])[-1], exc=r.exc['type'],
+                  **({'relayed': hist[-1]} if hist and hist[0] == '!relay' else {}))
             elif r.gateway_errors:
                 V('malformed_response', trig, '%s %s: %s' % (r.method, r.query[:40], '; '.join(r.gateway_errors)))
             elif r.status not in (200, 400, 401, 405):
@@ -410,26 +425,31 @@ def run(ctx):
         transitions += tr
         maxd = max(maxd, md)
         for h in hists:
-            for i in range(len(PROBES)):
+            for i in range(len(PROBES) - 1):
                 jobs.append((impl, h, i))
         # farewell pass: a disconnect handler that yields and then sends to the ending session; every probe from four states
         for base_h in (('open',), ('open', 'poll'), ('open', 'send', 'poll'), UPGRADED):
-            for i in range(len(PROBES)):
+            for i in range(len(PROBES) - 1):
                 jobs.append((impl, ('!farewell',) + base_h, i))
         # failing-application pass: handlers that raise (a TypeError from a two-argument disconnect handler, anything from a
         # legacy one-argument one, an exception from the message handler) - every probe from four states
         for mark in ('!hostile', '!legacy'):
             for base_h in (('open',), ('open', 'poll'), ('open', 'send', 'poll'), UPGRADED):
-                for i in range(len(PROBES)):
+                for i in range(len(PROBES) - 1):
                     jobs.append((impl, (mark,) + base_h, i))
+        # flood pass: more messages than any bounded buffer would hold, sent to a session from three states
+        P_FLOOD = len(PROBES) - 1
+        for base_h in (('open',), ('open', 'poll'), ('open', 'vanish'), UPGRADED):
+            jobs.append((impl, base_h, P_FLOOD))
         # relay pass: the application sends back what it receives, and a client posts text that decodes to a lone surrogate
-        for base_h in (('open', 'post_surrogate'), ('open', 'poll', 'post_surrogate'), UPGRADED + ('post_surrogate',)):
-            for i in range(len(PROBES)):
+        for base_h in (('open', 'post_surrogate'), ('open', 'poll', 'post_surrogate'), UPGRADED + ('post_surrogate',),
+                       ('open', 'post_surrogate_json'), ('open', 'poll', 'post_surrogate_json')):
+            for i in range(len(PROBES) - 1):
                 jobs.append((impl, ('!relay',) + base_h, i))
         # overlap pass: every probe arrives while the disconnect handler of an ending session is asleep
         for base_h in (('open',), ('open', 'poll'), UPGRADED):
             for f in OVERLAP_FIRSTS:
-                for i in range(len(PROBES)):
+                for i in range(len(PROBES) - 1):
                     jobs.append((impl, base_h + (f,), i))
     res = parallel.pmap_chunks(_probe_work, parallel.split(jobs, ctx.workers * 8), ctx.workers, ctx.seed, maxtasks=6)
     n = 0
